@@ -94,8 +94,27 @@ def _cache_guard(fa: FnAlias, node, attr: str) -> Optional[str]:
     names = {attr, attr.lstrip("_"), "_" + attr.lstrip("_")}
     hits = []
 
+    def in_attr_try(a) -> bool:
+        """inside the body of a try whose handler catches AttributeError (or everything): a failed read of the attribute leads to the handler"""
+        child = a
+        for anc in parents(a):
+            if isinstance(anc, ast.Try) and any(child is s for s in anc.body):
+                for h in anc.handlers:
+                    if h.type is None or "AttributeError" in unparse(h.type) or unparse(h.type) == "Exception":
+                        return True
+            child = anc
+        return False
+
     def mentions(n):
-        if n.kind != "test" or n.ast is None:
+        if n.ast is None:
+            return False
+        if n.kind != "test":
+            # `try: return self.x  except AttributeError: <compute and store>` is the same lazy-cache idiom spelled with an exception:
+            # the handler is entered only because reading the attribute failed (the try body is that single read)
+            if n.kind == "except" and isinstance(n.ast, ast.ExceptHandler):
+                tr = getattr(n.ast, "_parent", None)
+                if isinstance(tr, ast.Try) and len(tr.body) == 1 and (n.ast.type is None or "AttributeError" in unparse(n.ast.type)):
+                    return any(isinstance(sub, ast.Attribute) and path_of(sub) in {f"self.{nm}" for nm in names} for sub in ast.walk(tr.body[0]))
             return False
         txt = unparse(n.ast)
         for nm in names:
@@ -110,6 +129,52 @@ def _cache_guard(fa: FnAlias, node, attr: str) -> Optional[str]:
     if tests and fa.cfg.must_pass(node, mentions):
         return "every path to the write first tests " + " / ".join(sorted({"`" + unparse(t.ast) + "`" for t in tests}))
     return None
+
+
+def _fresh_at_call_sites(repo, m, ci, name: str, fn, pname: str) -> bool:
+    """private helper `name` writes into its parameter `pname`: acceptable iff every call site (same class hierarchy / module) passes an
+    object that is fresh in the caller (newly constructed or a copy), established by the caller's alias analysis"""
+    params = func_params(fn)
+    if pname not in params:
+        return False
+    is_method = ci is not None and not any(unparse(d) == "staticmethod" for d in fn.decorator_list)
+    idx = params.index(pname) - (1 if is_method else 0)
+    sites = []
+    scopes = []
+    if ci is not None:
+        for c in [ci] + repo.subclasses(ci):
+            for kind, nm, f in c.all_functions():
+                scopes.append((c, f))
+    else:
+        for nm, f in m.functions.items():
+            scopes.append((None, f))
+        for c in m.classes.values():
+            for kind, nm, f in c.all_functions():
+                scopes.append((c, f))
+    for c, f in scopes:
+        if f is fn:
+            continue
+        calls = [x for x in ast.walk(f) if isinstance(x, ast.Call) and (call_name(x) or "") in ((f"self.{name}", f"{ci.name}.{name}", f"type(self).{name}") if ci is not None else (name,))]
+        if not calls:
+            continue
+        fa = FnAlias(f)
+        for x in calls:
+            arg = None
+            if idx < len(x.args):
+                arg = x.args[idx]
+            else:
+                for k in x.keywords:
+                    if k.arg == pname:
+                        arg = k.value
+            if arg is None:
+                return False
+            nd = fa.cfg.stmt_node_containing(x)
+            if nd is None:
+                return False
+            if fa.roots(arg, nd):
+                return False
+            sites.append(x)
+    return bool(sites)
 
 
 def _writes_through_shallow_copy(repo, ci, fa: FnAlias, nd, target: ast.Attribute):
@@ -181,7 +246,12 @@ def _r1(chk, repo):
                 if why is not None:
                     continue
             nfun += 1
-            fa = FnAlias(fn, method_resolver=(lambda nm, _ci=ci: (_ci.lookup(nm) or (None, None))[1]) if ci is not None else None)
+            from .common import canon_fn
+            try:
+                fnv = canon_fn(repo, ci, fn, 4, rel=m.rel)      # structural normal form + temporaries substituted (helpers not inlined)
+            except Exception:
+                fnv = fn
+            fa = FnAlias(fnv, method_resolver=(lambda nm, _ci=ci: (_ci.lookup(nm) or (None, None))[1]) if ci is not None else None)
             a = fn.args
             fresh_params = {f"param:{x.arg}" for x in ([a.vararg] if a.vararg else []) + ([a.kwarg] if a.kwarg else [])}
             sites = []
@@ -235,6 +305,10 @@ def _r1(chk, repo):
                 elif g is not None and kind_ == "attribute store" and "." not in attr:
                     chk.ok("C11-R1", inst, w, f"{kind_}: recognised lazy cache, {g}", an)
                     inventory.append((inst, "cache"))
+                elif what.startswith("param:") and not what.startswith("param:self") and name.startswith("_") and not name.startswith("__") \
+                        and _fresh_at_call_sites(repo, m, ci, name, fn, what.split(":", 1)[1].split(".")[0]):
+                    chk.ok("C11-R1", inst, w, f"{kind_}: private helper; the written argument is a fresh object at every call site", an)
+                    inventory.append((inst, "helper-fresh"))
                 else:
                     chk.fail("C11-R1", inst, w,
                              f"{kind_} reaches `{what}`, an object that exists before this call (not a fresh copy): "
@@ -402,38 +476,36 @@ def _r3(chk, repo):
 
 # ------------------------------------------------------------------------------------------------ R4
 def _r4(chk, repo):
+    from .common import match, cfgv, guarded, views, stmts
+    from ..pattern import norm as pn
     D = repo.cls("cuqi/density/_density.py:Density")
     mk = repo.method(D, "_make_copy")[1]
-    fa = FnAlias(mk)
-    ok = False
-    for n in ast.walk(mk):
-        if isinstance(n, ast.Assign) and isinstance(n.targets[0], ast.Attribute) and n.targets[0].attr == "_original_density" \
-                and path_of(n.value) == "self":
-            base = path_of(n.targets[0].value)
-            rets = [r for r in ast.walk(mk) if isinstance(r, ast.Return)]
-            cps = [a for a in ast.walk(mk) if isinstance(a, ast.Assign) and path_of(a.targets[0]) == base and shallow_copy_source(a.value) is not None]
-            ok = len(rets) == 1 and path_of(rets[0].value) == base and len(cps) == 1
-    chk.add("C11-R4", f"{D.qual}._make_copy", ok, site(repo, mk), "returns copy(self) with _original_density = self",
-            "_make_copy does not return a shallow copy carrying a back pointer to the original", mk)
+    b = None
+    for cp in ("copy(self)", "copy.copy(self)"):
+        b = b or match(repo, D, mk, [f"$c={cp}", "$c._original_density=self", "return $c"])
+    S = stmts(repo, D, mk)
+    rec = any("_original_density" in t for t, _ in S) or any(t.startswith("return") for t, _ in S)
+    chk.decide("C11-R4", f"{D.qual}._make_copy", b is not None, rec, site(repo, mk), "returns copy(self) with _original_density = self",
+               "_make_copy does not return a shallow copy carrying a back pointer to the original", mk)
     p = D.props.get("name")
     if p is None or p.getter is None or p.setter is None:
         raise AnchorError("Density.name property not found")
-    g = CFG(p.getter)
+    v, g = cfgv(repo, D, p.getter)
     rets = g.returns()
-    first = [r for r in rets if unparse(r.ast.value) == "self._original_density.name"]
-    ok = bool(first) and any(unparse(t.ast) == "self._is_copy" and lab == "T" for t, lab in g.guards_of(first[0])) \
-        and all(g.dominates(g.node_of(_test_named(g, "self._is_copy")), r) for r in rets)
-    chk.add("C11-R4", f"{D.qual}.@name", ok, site(repo, p.getter), "a copy reports the name of its original before any other rule applies",
-            "the name getter does not defer to the original for conditioned copies first", p.getter)
-    gs = CFG(p.setter)
+    first = [r for r in rets if pn(r.ast.value) == "self._original_density.name"]
+    others = [r for r in rets if r not in first]
+    ok = bool(first) and guarded(g, first[0], "self._is_copy", "T") and all(guarded(g, r, "self._is_copy", "F") for r in others)
+    chk.decide("C11-R4", f"{D.qual}.@name", ok, bool(first), site(repo, p.getter), "a copy reports the name of its original before any other rule applies",
+               "the name getter does not defer to the original for conditioned copies first", p.getter)
+    v, gs = cfgv(repo, D, p.setter)
     st = [n for n in gs.nodes if isinstance(n.ast, ast.Assign) and path_of(n.ast.targets[0]) == "self._name"]
-    ok = len(st) == 1 and any(unparse(t.ast) == "self._is_copy" and lab == "F" for t, lab in gs.guards_of(st[0]))
-    chk.add("C11-R4", f"{D.qual}.@name=", ok, site(repo, p.setter), "renaming a conditioned copy is refused",
-            "the name setter can rename a conditioned copy", p.setter)
+    ok = len(st) == 1 and guarded(gs, st[0], "self._is_copy", "F")
+    chk.decide("C11-R4", f"{D.qual}.@name=", ok, len(st) >= 1, site(repo, p.setter), "renaming a conditioned copy is refused",
+               "the name setter can rename a conditioned copy", p.setter)
     # Distribution._condition / Likelihood paths create copies through _make_copy
     dist = repo.cls("cuqi/distribution/_distribution.py:Distribution")
     c = repo.method(dist, "_condition")[1]
-    ok = any(isinstance(n, ast.Assign) and unparse(n.value) == "self._make_copy()" for n in ast.walk(c))
+    ok = any(isinstance(n, ast.Call) and pn(n) == "self._make_copy()" for n in ast.walk(c))
     chk.add("C11-R4", f"{dist.qual}._condition", ok, site(repo, c), "conditioned distribution is created by _make_copy()",
             "Distribution._condition does not create its result with _make_copy()", c)
 
